@@ -17,6 +17,11 @@ ops (namespace Verif.FilterGen; fuel = 100000, depth = 400 everywhere):
   us  <bytes> <off> <len> unpack_simple_filter              -> filter int
   hdr <bytes> <off> <len> unpack_filter_extensible_header   -> opt bool opt
   sub <bytes> <off> <len> unpack_filter_substrings_value    -> opt [bytes,…] opt
+  sv  <bytes>             serialize_filter_value            -> bytes (the UTF-8 octets of the str)
+  str <tree…>             Filter_str                        -> bytes (the UTF-8 octets of str(filter))
+      tree, prefix form, blank-separated tokens: `and <n> t1…tn` | `or <n> t1…tn` | `not t` | `eq a v` |
+      `substr a i <n> any1…anyn f` | `ge a v` | `le a v` | `present a` | `approx a v` | `ext rule attr v dn`
+      (a, v bytes; i, f, rule, attr options `none` | bytes; dn 0/1)
 One result line per case:
   `ok <value>`    filter: `(and f…)` `(or f…)` `(not f)` `(eq a v)` `(substr a i [any,…] f)` `(ge a v)`
                   `(le a v)` `(present a)` `(approx a v)` `(ext rule attr v dn)`; bytes `x<hex>`;
@@ -108,6 +113,49 @@ def window (args : List String) : Option (List Nat × Int × Int) :=
     pure (b, o, l)
   | _ => none
 
+def parseOpt (s : String) : Option (Option (List Nat)) :=
+  if s == "none" then some none else (parseBytes s).map some
+
+def parseNBytes : Nat → List String → Option (List (List Nat) × List String)
+  | 0, ts => some ([], ts)
+  | n + 1, t :: ts => do
+    let b ← parseBytes t
+    let (r, ts) ← parseNBytes n ts
+    pure (b :: r, ts)
+  | _, [] => none
+
+mutual
+partial def parseTree : List String → Option (Filter × List String)
+  | "and" :: n :: ts => do
+    let (fs, ts) ← parseTrees (← n.toNat?) ts
+    pure (.and fs, ts)
+  | "or" :: n :: ts => do
+    let (fs, ts) ← parseTrees (← n.toNat?) ts
+    pure (.or fs, ts)
+  | "not" :: ts => do
+    let (f, ts) ← parseTree ts
+    pure (.not f, ts)
+  | "eq" :: a :: v :: ts => do pure (.eq (← parseBytes a) (← parseBytes v), ts)
+  | "ge" :: a :: v :: ts => do pure (.ge (← parseBytes a) (← parseBytes v), ts)
+  | "le" :: a :: v :: ts => do pure (.le (← parseBytes a) (← parseBytes v), ts)
+  | "approx" :: a :: v :: ts => do pure (.approx (← parseBytes a) (← parseBytes v), ts)
+  | "present" :: a :: ts => do pure (.present (← parseBytes a), ts)
+  | "substr" :: a :: i :: n :: ts => do
+    let (any, ts) ← parseNBytes (← n.toNat?) ts
+    match ts with
+    | f :: ts => pure (.substr (← parseBytes a) (← parseOpt i) any (← parseOpt f), ts)
+    | [] => none
+  | "ext" :: r :: a :: v :: dn :: ts => do
+    pure (.ext (← parseOpt r) (← parseOpt a) (← parseBytes v) (dn == "1"), ts)
+  | _ => none
+partial def parseTrees : Nat → List String → Option (List Filter × List String)
+  | 0, ts => some ([], ts)
+  | n + 1, ts => do
+    let (f, ts) ← parseTree ts
+    let (fs, ts) ← parseTrees n ts
+    pure (f :: fs, ts)
+end
+
 def runCase (op : String) (args : List String) : Option String :=
   match op, args with
   | "fs", [s] => do
@@ -130,6 +178,12 @@ def runCase (op : String) (args : List String) : Option String :=
     let (b, o, l) ← window args
     pure (showRes (fun (r : Option (List Nat) × List (List Nat) × Option (List Nat)) =>
       showOpt r.1 ++ " " ++ showList r.2.1 ++ " " ++ showOpt r.2.2) (unpack_filter_substrings_value b o l))
+  | "sv", [b] => do
+    let b ← parseBytes b
+    pure ("ok " ++ showBytes (serialize_filter_value b))
+  | "str", _ => do
+    let (f, rest) ← parseTree args
+    if rest.isEmpty then pure ("ok " ++ showBytes (Filter_str f)) else none
   | _, _ => some (bad ("unknown op or arity: " ++ op))
 
 def runLine (line : String) : String :=
